@@ -67,6 +67,25 @@ def run(F, ctx):
     ctx.site("rebuild clears tombstones", r.where(), ok=bool(cl))
     if not cl:
         ctx.violation(IMPL + "rebuild:R-C25-a:tombstones-not-cleared", "rebuild does not clear the tombstone set: ids deleted before the rebuild stay dead after being rebuilt in", r.where())
+    # compaction sibling agreement: whoever clears the tombstone set must leave the index in the state rebuild() leaves it in
+    reset_fields = set()
+    for (c, fld, md) in common.lock_acquisitions(r):
+        if md == "write":
+            reset_fields.add(fld)
+    for n in sorted(F.bodies):
+        if "hnsw_index::HnswIndex" not in n or "{closure" in n or n == IMPL + "rebuild":
+            continue
+        f = F.fn(n)
+        cl2, _ = tomb_ops(f, "clear")
+        if not cl2:
+            continue
+        mine = {fld for (c, fld, md) in common.lock_acquisitions(f) if md == "write"}
+        calls_rebuild = any(c.resolved == IMPL + "rebuild" for c in f.normal_calls())
+        missing = sorted(reset_fields - mine - ({"inner"} if any(c.resolved == REBUILD_HNSW for c in f.normal_calls()) else set()))
+        ok = calls_rebuild or not missing
+        ctx.site("%s clears tombstones and resets the same state as rebuild" % n.split("::")[-1], f.where(), ok=ok, missing=missing)
+        if not ok:
+            ctx.violation("%s:R-C25-a:partial-compaction:%s" % (n, ",".join(missing)), "%s compacts the index in place (clears the tombstone set) but does not reset %s the way rebuild() does: the index state no longer follows its history (e.g. a stale dimension after the last vector is deleted)" % (n.split("::")[-1], missing), f.where())
     ctx.end_rule()
 
     # ---- b: metric literal tables
